@@ -191,6 +191,57 @@ def judge_special(ctx, case):
         ctx.fail("resolution", case, f"{formula!r} ({kind}: {case}): the call received {got[0]} instead of {want[0]}", kind)
 
 
+def judge_closure(ctx, case):
+    """The frame selected by env is a nested function (inner def or lambda, with or without a captured variable): the
+    locals of the functions around it are not its locals.  A name that is only a local of an enclosing (or calling)
+    function is undefined; if the selected frame's globals or extra_namespace define it, they win."""
+    from formulae import design_matrices
+
+    ctx.count(core.canon(case), True, ["special:closure"], stratum="special")
+    data = pd.DataFrame({"y": np.arange(N, dtype=float), "x": np.arange(N, dtype=float) + 1})
+    role, where, shape, env = case["role"], case["where"], case["shape"], case["env"]
+    val = {"outer": 99.0, "globals": 7.0, "extra": 11.0}
+
+    def obj(v):
+        return v if role == "arg" else (lambda a, v=v: np.asarray(a, dtype=float) * v)
+
+    g = {"design_matrices": design_matrices, "np": np}
+    extra = {"probe": probe}
+    if where == "globals":
+        g["zeta"] = obj(val["globals"])
+    elif where == "extra":
+        extra["zeta"] = obj(val["extra"])
+    call = "design_matrices(formula, data, env=env, extra_namespace=extra)"
+    if env == 1:  # one more plain frame between the nested function and the library
+        g["helper"] = None
+        exec(f"def helper(formula, data, env, extra):\n    return {call}\n", g)  # pylint: disable=exec-used
+        call = "helper(formula, data, env, extra)"
+    captured = "captured + 0.0, " if case["captures"] else ""
+    if shape == "def":
+        body = f"    def inner(formula, data, env, extra):\n        return ({captured}{call})[-1]\n"
+    else:
+        body = f"    inner = lambda formula, data, env, extra: ({captured}{call})[-1]\n"
+    src = f"def outer(formula, data, env, extra, zeta_value):\n    zeta = zeta_value\n    captured = 1.0\n{body}    return inner(formula, data, env, extra)\n"
+    src = src.replace(f"({call})[-1]", call)
+    exec(src, g)  # pylint: disable=exec-used
+    formula = "y ~ 0 + probe(zeta)" if role == "arg" else "y ~ 0 + zeta(x)"
+    try:
+        with core.Guard():
+            dm = g["outer"](formula, data, env, extra, obj(val["outer"]))
+        got = np.asarray(dm.common.design_matrix, dtype=float).reshape(N, -1)[:, 0]
+    except Exception as e:  # pylint: disable=broad-except
+        if where is not None:
+            ctx.fail("resolution", case, f"{formula!r} (closure: {case}) raised {type(e).__name__}: {e}", "closure:" + core.exc_key(e))
+        return
+    if where is None:
+        ctx.fail("undefined", case, f"{formula!r}: zeta is only a local of the function around the selected frame, but the design was built "
+                 f"(column starts with {got[0]})", "closure:resolved")
+        return
+    want = np.ones(N) * val[where] if role == "arg" else data["x"].to_numpy() * val[where]
+    if not np.allclose(got, want):
+        ctx.fail("resolution", case, f"{formula!r} (closure: {case}): got {got[0]}, expected {want[0]} from {where}", "closure")
+
+
 SHADOWED = {"I": "y ~ 0 + I(x)", "offset": "y ~ 0 + offset(x)", "scale": "y ~ 0 + scale(x)", "center": "y ~ 0 + center(x)", "C": "y ~ 0 + C(k)"}
 
 
@@ -244,6 +295,9 @@ def judge(ctx, case):
         return
     if case.get("kind") in ("none_value", "encoding_named_column", "response_side"):
         judge_special(ctx, case)
+        return
+    if case.get("kind") == "closure":
+        judge_closure(ctx, case)
         return
     items = [(r, n, tuple(s)) for r, n, s in case["items"]]
     env = case["env"]
@@ -328,6 +382,12 @@ def enum_cases():
         for subset in _subsets(["locals", "globals", "extra"]):
             if subset:
                 yield {"kind": "shadow", "name": name, "subset": list(subset)}
+    for role in ("arg", "callee"):
+        for where in (None, "globals", "extra"):
+            for shape in ("def", "lambda"):
+                for captures in (False, True):
+                    for env in (0, 1):
+                        yield {"kind": "closure", "role": role, "where": where, "shape": shape, "captures": captures, "env": env}
     for env in (50, 1000):
         yield {"items": [["arg", "zeta", ["extra"]]], "env": env}
         yield {"items": [["callee", "zeta", ["globals", "extra"]]], "env": env}
